@@ -301,7 +301,22 @@ func (c *Check) requireWhen(rule, inst string, fn *ssa.Function, holds func([]At
 			for _, sf := range scan {
 				sf := sf
 				if sf != fn {
-					// the condition may be established inside a new helper: the obligation is then judged inside it
+					// the condition may be established inside a new helper: the obligation is then judged inside it —
+					// provided the required call lives there too; a helper that only establishes the condition and
+					// hands a verdict back is judged at its caller, through the facts its verdict carries
+					has := false
+					for _, mc := range m {
+						top := mc.Parent()
+						for top.Parent() != nil {
+							top = top.Parent()
+						}
+						if inCodeOf(sf, top) {
+							has = true
+						}
+					}
+					if !has {
+						continue
+					}
 					rets = successReturns(sf)
 					inner := sf
 					check = func(start *ssa.BasicBlock) {
@@ -330,7 +345,10 @@ func (c *Check) requireWhen(rule, inst string, fn *ssa.Function, holds func([]At
 					for idx := 0; idx < 2; idx++ {
 						a := condAtom(ifi.Cond, idx == 0)
 						a.If = ifi
-						if holds(append(append([]Atom{}, before...), a)) {
+						with := append(append([]Atom{}, before...), a)
+						with = append(with, helperBoolFacts(a, 0)...)
+						with = append(with, helperSuccessFacts(a, 0)...)
+						if holds(with) {
 							nEdges++
 							check(b.Succs[idx])
 						}
@@ -696,7 +714,7 @@ func (c *Check) handlerEffects(kinds map[string]*recKind) {
 			// guard is exactly ValidateClosable()==nil
 			n := 0
 			for _, f := range factsAt(call.Block()) {
-				if h := loopHeaderOf(call.Block()); h != nil && f.If != nil && f.If.Block() != h && h.Dominates(f.If.Block()) {
+				if h := loopHeaderOf(call.Block()); h != nil && f.If != nil && f.If.Block() != h && domSame(h, f.If.Block()) {
 					n++
 					cv, _ := callOf(f.X)
 					if cv == nil || calleeMethod(cv) != "ValidateClosable" {
@@ -707,7 +725,7 @@ func (c *Check) handlerEffects(kinds map[string]*recKind) {
 			c.Ob("R2", "account-closed hook: every closable group is closed", call.Pos(), n == 1, "group closing inside the hook is skipped under an extra condition")
 			// state argument: closed, or insufficient_funds iff account overdrawn
 			a := userArgs(call)
-			cs := constSet(a[1], map[ssa.Value]bool{})
+			cs := l.constSetThroughCallers(a[1], 0)
 			gc, _ := constantInt2(l, dk, "GroupClosed")
 			gi, _ := constantInt2(l, dk, "GroupInsufficientFunds")
 			c.Ob("R2", "account-closed hook: groups end closed or insufficient_funds", call.Pos(), cs != nil && len(cs) == 2 && cs[gc] && cs[gi], "group state argument "+Sym(a[1]))
